@@ -55,3 +55,15 @@ Definition recv_seq (s : shared) (c : nat) (from : tid) : list nat :=
 Definition queue_seq (s : shared) (c : nat) (from : tid) : list nat :=
   map snd (filter (fun x => Nat.eqb (fst x) from) (chans s c)).
 
+
+(* ------------------------------------------------------------------ liveness vocabulary *)
+Definition is_spawn (a : act) : bool := match a with ASpawn _ => true | _ => false end.
+Definition is_stw (p : tpc) : bool := match p with Stw _ => true | _ => false end.
+(* no script contains a spawn: the set of registered threads is fixed *)
+Definition no_spawn_progs (progs : list (list act)) : bool := forallb (fun p => negb (existsb is_spawn p)) progs.
+(* round robin over three threads, as an infinite schedule *)
+Definition rr3 : nat -> tid := fun i => i mod 3.
+Definition live_progs : list (list act) := [[AAlloc true]; [ACompute; APrim; ACompute]; [APrim; ACompute]].
+Definition live_sched : list tid := [1; 0;0;0;0;0;0;0;0].
+Definition late_progs : list (list act) := [[ASpawn 2; ASpawn 1; APrim]; List.repeat ACompute 12; [AAlloc true]].
+Definition late_sched : list tid := [0;0;0;0;0; 0;0] ++ List.repeat 2 12 ++ [0] ++ List.repeat 2 5.
